@@ -107,6 +107,17 @@ func fullValsOf(t *meta.Type, asList bool) []val.Value {
 	case val.FmtBinary:
 		out = append(out, val.Binary("AQID"), val.Binary("/+8="), val.Binary(""))
 	case val.FmtUnion:
+		if ms := t.Union(); !(len(ms) == 2 && ms[0].Format() == val.FmtInt32 && ms[1].Format() == val.FmtString) {
+			// two values of every member type, in member order
+			for _, mt := range ms {
+				vs := fullValsOf(mt, false)
+				if len(vs) > 2 {
+					vs = vs[:2]
+				}
+				out = append(out, vs...)
+			}
+			break
+		}
 		out = append(out, val.Int32(5), val.Int32(-1), val.String("x"), val.String(""), val.String("a b"), val.String("true"))
 		// strings that are lexical values of an earlier member ("42" in union{int32,string}) are not
 		// values of the union: RFC 7950 9.12 gives them to the first member that matches
@@ -119,6 +130,22 @@ func fullValsOf(t *meta.Type, asList bool) []val.Value {
 		return nil
 	}
 	pick := [][]val.Value{{out[0]}, {out[len(out)-1], out[0], out[len(out)/2]}, out}
+	if t.Format().Single() == val.FmtUnion {
+		// a list value of the library holds one member type: lists per type of value
+		byType := map[string][]val.Value{}
+		var order []string
+		for _, v := range out {
+			k := v.Format().String()
+			if _, seen := byType[k]; !seen {
+				order = append(order, k)
+			}
+			byType[k] = append(byType[k], v)
+		}
+		pick = nil
+		for _, k := range order {
+			pick = append(pick, byType[k][:1], byType[k])
+		}
+	}
 	var lists []val.Value
 	for _, p := range pick {
 		if l := ListOfAny(p); l != nil {
